@@ -398,17 +398,37 @@ def build_and_run(work, tu, cfg, seed, compile_timeout, case_timeout, keep=False
     return events, t1 - t0, time.time() - t1
 
 
-def run_matrix(work, tus, cfgs, seed, compile_timeout=900, case_timeout=60, log=None):
-    """All (TU, cfg) pairs on a memory-aware pool. Returns list of events."""
+def run_matrix(work, tus, cfgs, seed, compile_timeout=900, case_timeout=60, log=None, max_jobs=None):
+    """All (TU, cfg) pairs on a memory-aware pool. Returns list of events.
+    max_jobs bounds the (weighted) number of pairs: every TU is kept under at least one configuration and every configuration keeps
+    at least one TU; the rest of the budget is a seeded sample of the remaining pairs (a covering sample instead of the full product)."""
     def _m(name, pat):
         return not pat or any(fnmatch.fnmatchcase(name, p) for p in ([pat] if isinstance(pat, str) else pat))
     jobs = [(tu, cfg) for cfg in cfgs for tu in tus if _m(cfg.name, tu.only_cfgs) and _m(tu.name, cfg.only_tus)]
+    total_pairs = len(jobs)
+    if max_jobs and sum(j[0].weight for j in jobs) > max_jobs:
+        import random as _random
+        rnd = _random.Random(seed * 1000003 + 17)
+        rnd.shuffle(jobs)
+        keep, seen_tu, seen_cfg, cost = [], set(), set(), 0
+        for j in jobs:                                  # coverage pass
+            if j[0].name not in seen_tu or j[1].name not in seen_cfg:
+                keep.append(j); seen_tu.add(j[0].name); seen_cfg.add(j[1].name); cost += j[0].weight
+        kept = set((j[0].name, j[1].name) for j in keep)
+        for j in jobs:                                  # fill the budget
+            if cost >= max_jobs:
+                break
+            if (j[0].name, j[1].name) not in kept:
+                keep.append(j); cost += j[0].weight
+        jobs = keep
+        if log:
+            log('  covering sample: %d of %d (TU,cfg) pairs (budget %d)' % (len(jobs), total_pairs, max_jobs))
     # heavy TUs first
     jobs.sort(key=lambda j: (-j[0].weight, 0 if j[1].san else 1))     # long poles (heavy TUs, sanitizer builds) first
     events = []
     sem = threading.Semaphore(NPROC)
     lock = threading.Lock()
-    stats = {'compile_s': 0.0, 'run_s': 0.0, 'jobs': 0, 'slowest': []}
+    stats = {'compile_s': 0.0, 'run_s': 0.0, 'jobs': 0, 'slowest': [], 'pairs_total': total_pairs, 'pairs_run': len(jobs)}
 
     def one(job):
         tu, cfg = job
@@ -623,7 +643,8 @@ def run_check(mod, tier, seed):
         skipped = [c.name for c in cfgs if not c.runnable()]
         events, stats = run_matrix(work, tus, cfgs, seed,
                                    compile_timeout=getattr(mod, 'COMPILE_TIMEOUT', 1200),
-                                   case_timeout=getattr(mod, 'CASE_TIMEOUT', 60 if tier == 'quick' else 300), log=log)
+                                   case_timeout=getattr(mod, 'CASE_TIMEOUT', 60 if tier == 'quick' else 300), log=log,
+                                   max_jobs=(int(os.environ.get('VERIF_MAXJOBS', getattr(mod, 'THOROUGH_MAXJOBS', 600))) if tier != 'quick' else None))
         # hang confirmation: re-run is folded into `inconclusive` (never a violation by itself)
         findings = load_findings()
         res = judge(prop, events, findings, mod)
@@ -707,6 +728,8 @@ def run_check(mod, tier, seed):
             'compile_cpu_s': round(stats['compile_s'], 1),
             'run_cpu_s': round(stats['run_s'], 1),
             'slowest_jobs_s': stats['slowest'],
+            'tu_cfg_pairs_run': stats['pairs_run'],
+            'tu_cfg_pairs_in_full_product': stats['pairs_total'],
             'exhaustive': False,
         }
         if hasattr(mod, 'coverage_extra'):
